@@ -156,6 +156,12 @@ func classifyRejection(cond ssa.Value, neg bool) (field, kind string) {
 					}
 				}
 			}
+			// a helper that counts occurrences (`gs.countVestingTypesNamed(name) > 1`): its result is a loop counter, not a
+			// derived field, and what it is handed is the key counted - the duplicate test written in place is structural,
+			// and so is this one
+			if callee := x.Common().StaticCallee(); callee != nil && isCounterHelper(callee) {
+				return
+			}
 			// a method of a module type is a derived field of that type
 			if callee := x.Common().StaticCallee(); callee != nil && callee.Signature.Recv() != nil && len(fields) == 0 {
 				rt := callee.Signature.Recv().Type()
@@ -764,4 +770,60 @@ func pkgPathOf(f *ssa.Function) string {
 		break
 	}
 	return ""
+}
+
+// isCounterHelper: a module function with one integer result that is, on every return, a counter: built only from
+// integer constants, phis and additions of a constant (count := 0; for ... { if match { count++ } }; return count).
+func isCounterHelper(fn *ssa.Function) bool {
+	if fn == nil || fn.Blocks == nil || !strings.HasPrefix(pkgPathOf(fn), modPath) {
+		return false
+	}
+	res := fn.Signature.Results()
+	if res.Len() != 1 {
+		return false
+	}
+	if b, ok := res.At(0).Type().Underlying().(*types.Basic); !ok || b.Info()&types.IsInteger == 0 {
+		return false
+	}
+	seen := map[ssa.Value]bool{}
+	sawInc := false
+	var counter func(v ssa.Value) bool
+	counter = func(v ssa.Value) bool {
+		if seen[v] {
+			return true
+		}
+		seen[v] = true
+		switch x := v.(type) {
+		case *ssa.Const:
+			return true
+		case *ssa.Phi:
+			for _, e := range x.Edges {
+				if !counter(e) {
+					return false
+				}
+			}
+			return true
+		case *ssa.BinOp:
+			if x.Op != token.ADD {
+				return false
+			}
+			_, cx := x.X.(*ssa.Const)
+			_, cy := x.Y.(*ssa.Const)
+			if cy && counter(x.X) || cx && counter(x.Y) {
+				sawInc = true
+				return true
+			}
+			return false
+		}
+		return false
+	}
+	n := 0
+	for _, ret := range Returns(fn) {
+		rv := retVals(ret)
+		if len(rv) != 1 || !counter(rv[0]) {
+			return false
+		}
+		n++
+	}
+	return n > 0 && sawInc
 }
